@@ -138,6 +138,16 @@ theorem setattr_registers :
   intro k d
   cases k <;> cases d <;> decide
 
+/-- **listeners_registered_by_identity.**  Every class's `add_parameter_listener` / `add_model_listener` is, in
+the source, exactly `self.<list>.append(listener)`: a registration is never skipped because the new listener
+"is already there" under `==` / `in` (derived parameters compare equal BY VALUE, so two distinct consumers of
+the same parameters would be confused).  Together with `setattr_registers` and the identity-based conformance
+check of every extracted graph (`conformsB`: the holder's node is in the listener list of each registered
+input), the listener relation the machine runs on is over object identity. -/
+theorem listeners_registered_by_identity :
+    ∀ e ∈ TTGen.C11_Wiring.listenerAppends, e.2 = true := by
+  decide
+
 /-- **torchtree_no_stale.**  Any object graph built from the covered classes — as extracted from
 real objects by the harness: it passes the executable well-formedness and conformance checks —
 never returns a stale value and no parameter update raises, for all operation sequences. -/
